@@ -15,9 +15,11 @@ PROOF_NOTE = ("trusted: the self-written VC generator (engine/*.py, symbolic exe
 CHECKS = {
     "C14": ("proof",
             "every symbolic parameter node's shape/axis arithmetic (all ranks, all axes), every compilation rule (torch node gets the "
-            "same shapes, axis and integers) and every torch parameter kernel's forward (declared shape, element-wise equality with the "
-            "mathematical definition along the declared axis, fold-pointwise) are discharged as SMT obligations generated from the real "
-            "function bodies; complete in dimension sizes and folds, rank-enumerated for kernels",
+            "same shapes, axis and integers), every torch parameter kernel's forward (declared shape, element-wise equality with the "
+            "mathematical definition along the declared axis, fold-pointwise) and the folding step of parameter nodes (equal fold settings imply "
+            "equal configuration; a node rebuilt from its configuration with F folds is the same node) are discharged as SMT obligations generated "
+            "from the real function bodies; complete in dimension sizes and folds, rank-enumerated for kernels; a labelled bounded stand-in "
+            "(node classes x small shapes x folds vs the numpy definition) runs beside it and is not counted",
             PROOF_NOTE, "contracts + self-written VC generation (AST symbolic execution) discharged by z3/cvc5", "4/C14"),
 }
 
@@ -33,48 +35,78 @@ def mixed(text, extra_note=""):
 
 
 CHECKS.update({
-    "C01": bounded("compiled circuits are evaluated against the reference interpreter of the symbolic circuit on generated circuits "
-                   "x semirings x flags x batch sizes; the contract engine does not yet reach the compiler/layer kernels"),
-    "C02": mixed("the fold-pointwise clause of every parameter kernel and the pointer parameter are contract obligations (shared with "
-                 "C14/C10); flag-independence end-to-end is a bounded stand-in: four flag settings with tied parameters against the "
-                 "reference interpreter"),
-    "C03": bounded("compiled integrate(c, Z) against brute-force sums / quadrature of the reference interpreter"),
-    "C04": bounded("compiled multiply(c1, c2) against the Kronecker-ordered product of reference values; refusals counted"),
-    "C05": mixed("TorchPolynomialDifferential kernel obligations (shape, coefficient n*a_n shift, order-fold composition) are "
-                 "discharged by the contract engine; output order and values of differentiate end-to-end are a bounded stand-in"),
-    "C06": bounded("compiled evidence(c, obs) against the reference value with observed columns overwritten, result scope, and "
-                   "concatenate against stacked operand values"),
+    "C01": mixed("contract obligations on the compiled layers' kernels (sum: column h*Ki+i <-> unit i of input h; hadamard; kronecker first-input-major; "
+                 "embedding / categorical / gaussian / binomial / constant / evidence forward; output shape (F, B, K); fold- and batch-pointwise) for all "
+                 "sizes incl. batch == folds, in the linear semiring; compilation wiring, address book and the log-space semirings are covered only by "
+                 "the bounded stand-in (compiled circuits vs the reference interpreter on generated circuits x semirings x flags x batch sizes)"),
+    "C02": mixed("contract obligations: fold_settings 2-safety (equal fold settings imply equal configuration) and rebuild-from-config for every "
+                 "parameter node and for tensor parameters (shape, requires_grad, dtype); the einsum optimisation rule equals ReduceSum o OuterProduct "
+                 "for every rank <= 4 and dim pair; fold-pointwise kernels (shared with C14); flag-independence end-to-end (grouping, address book, graph "
+                 "surgery, layer-level optimisation rules) is a bounded stand-in: four flag settings with tied parameters vs the reference interpreter"),
+    "C03": mixed("contract obligations: every integration rule against the spec integral (sum over states / logsumexp / log-partition, right space flag, "
+                 "refusal outside the scope) for all sizes; functional.integrate executed symbolically on four circuit templates x five input kinds with "
+                 "symbolic variable ids, unit counts and Z: one layer per layer, wiring and output order mirrored, integrated layers constant, others "
+                 "reference copies, result scope = scope \\ Z; the constant layer's kernel and the einsum rewrite of the integrals of products; arbitrary "
+                 "DAG shapes and the numeric end-to-end statement (incl. nested = union) only by the bounded stand-in vs brute-force sums / quadrature"),
+    "C04": mixed("contract obligations: every multiplication rule places unit (o1, o2) at o1*K2+o2 and computes the product (embedding, categorical in "
+                 "logits/probs combinations, gaussian closed forms with operand log-partitions, polynomial operand order and degree, hadamard) and the "
+                 "sum-layer alignment lemma (Kronecker weight columns vs product inputs (h1,h2) and units (i1,i2)) for ALL arities and unit counts; refusals "
+                 "on different scopes / state counts; the stack loop of functional.multiply and the Kronecker-layer permutation matrix (numpy) only by the "
+                 "bounded stand-in (compiled multiply vs Kronecker-ordered product of reference values)"),
+    "C05": mixed("contract obligations: Scope.__iter__ strictly increasing for every finite set of ids (set iteration modelled as arbitrary order); "
+                 "differentiate_polynomial_layer coefficients / degree / zero polynomial / refusal for orders 1..3; TorchPolynomialDifferential kernel; the "
+                 "loop of functional.differentiate (block order across sums and products) only by the bounded stand-in vs exact polynomial derivatives"),
+    "C06": mixed("contract obligations: functional.evidence executed symbolically on four templates x three input kinds (observed layers become evidence "
+                 "layers over a reference copy observing the value of their own variable, scope = scope \\ obs, refusals) and functional.concatenate on "
+                 "three operand pairs (layers and outputs operand by operand); evidence-layer kernel (same value for every batch row, wrapped layer at the "
+                 "observation of its fold); tensors of different dtype never share a fold; arbitrary DAG shapes / flags by the bounded stand-in"),
+    "C07": mixed("contract obligations: every conjugation rule keeps class, scope, configuration and EVERY parameter (conjugated for embedding / "
+                 "polynomial / sum, carried over for categorical / gaussian incl. log_partition) for complex and real operands and for references into "
+                 "operand tensors; functional.conjugate on four templates x four input kinds; numeric clause conj(c) incl. conjugate of derived circuits by "
+                 "the bounded stand-in"),
     "C08": bounded("structural predicates against an independent set-based oracle on random (also non-smooth / non-decomposable) circuits, "
-                   "with the 2-safety clauses checked by re-running on permuted / renamed / swapped inputs"),
-    "C09": bounded("operators on generated invalid operands must raise the documented exception; flags, scope and output counts of "
-                   "returned circuits are recomputed by an independent oracle"),
-    "C11": bounded("IntegrateQuery with per-sample variable sets in the three input formats against brute-force marginals of the "
-                   "reference interpreter and against the compiled symbolic integrate; rejection of out-of-scope variables"),
-    "C12": mixed("mixing_weight_factory's shape contract is a discharged obligation; normalisation (Z = 1, non-negativity, finite log "
-                 "values) of the template circuits is a bounded stand-in over template arguments and three parameter states",
+                   "with the 2-safety clauses checked by re-running on permuted / renamed / swapped inputs; only the refusal consequences of is_smooth / "
+                   "is_decomposable on two bad templates are contract obligations (under C09)"),
+    "C09": mixed("contract obligations: integrate / differentiate / multiply refuse a non-smooth and a non-decomposable (non-adjacent overlap in an "
+                 "arity-3 product) template with StructuralPropertyError; integrate and evidence refuse empty / foreign variable sets, differentiate and the "
+                 "polynomial rule refuse orders <= 0, rules refuse foreign scopes (ValueError); result scope / output order clauses of C03/C06/C07 templates; "
+                 "flags of results of arbitrary circuits recomputed by an independent oracle only in the bounded stand-in"),
+    "C10": mixed("contract obligations: Parameter.ref on seven parameter-graph shapes and Layer.copyref for every layer class denote the same value of "
+                 "the SAME tensor objects, own no tensor parameter, and use operand tensors only behind references; the same sharing clause on every "
+                 "operator rule and on the results of integrate / conjugate / evidence templates; TorchPointerParameter reads the current target slice; "
+                 "frame obligation: no evaluation method of a compiled module writes object state (so every in-place update is observed); update histories "
+                 "end-to-end by the bounded stand-in"),
+    "C11": mixed("contract obligations: log_partition_function / integrate of every exp-family layer return (F, 1, K) with the right value for all "
+                 "F, K (no accidental broadcast when batch == folds); forward kernels per fold and batch row; IntegrateQuery (mask construction, per-sample "
+                 "selection, rejection of out-of-scope variables) only by the bounded stand-in vs brute-force marginals in the three input formats"),
+    "C12": mixed("contract obligations: mixing_weight_factory shape arithmetic; kernels of the normalising nodes (softmax / log-softmax / sigmoid on the "
+                 "declared axis, mixing-weight expansion per fold); that every template's sum layers receive normalised weights and Z = 1 before / after "
+                 "updates is a bounded stand-in over template arguments and three parameter states",
                  "; 'finite in log space' is a floating point statement checked only on the sampled inputs"),
     "C16": bounded("every region-graph algorithm over small argument spaces: independent validator, structured-decomposability flag "
                    "vs set definition, dump/load round trip, build_circuit with the three abstractions and with explicit factories"),
-    "C10": mixed("TorchPointerParameter's kernel contract (reads the current value of the target tensor slice, fold-pointwise) is a discharged "
-                 "obligation; 'no new learnable tensor' and 'relation holds after every in-place update' are a bounded stand-in over "
-                 "operator chains and update histories"),
     "C15": ("other", "structural clauses (shape, columns filled from the variable's input layer, support) and the distributional clause are a "
             "BOUNDED, seeded statistical stand-in: 20000 samples per circuit against exact probabilities with 6.5-sigma cell thresholds; no contract "
             "within reach decides convergence of empirical frequencies; one recorded known finding (optimized Tucker layers refuse to sample)",
             BOUNDED_NOTE + "; torch's random number generator and Categorical sampler are trusted; the statistical threshold admits a false alarm "
             "probability < 1e-8 per run and is deterministic for a fixed VERIF_SEED", "bounded seeded statistical check against exact probabilities", "4/C15"),
-    "C17": bounded("values of the registry slice of every symbolic tensor parameter after compile and after resets against its own initialiser, "
-                   "for parameters folded together with differently initialised ones"),
-    "C18": bounded("random well-bracketed context histories (nested, sequentially re-used, exceptional exits) and compile/operator call histories: "
-                   "active context and operator registry restored, memoisation, bijection, operands-first order; the inductive per-method contracts "
-                   "planned in DESIGN.md 4/C18 were not built"),
-    "C19": ("other", "BOUNDED STAND-IN: save -> fresh re-initialised compile -> load_state_dict(strict) -> equal outputs for base and derived circuits "
-            "under the four flag settings; the decisive step (nn.Module serialisation) is an assumed contract of a dependency, so no proof is claimed",
-            BOUNDED_NOTE + "; torch.save/torch.load and nn.Module.state_dict/load_state_dict are trusted", "bounded native round-trip check", "4/C19"),
+    "C17": mixed("contract obligation: tensor parameters folded into one storage agree on shape, requires_grad and dtype (fold_settings 2-safety); "
+                 "initialiser rules / fold-wise initialisation (values of every registry slice after compile and resets vs its own initialiser, also when "
+                 "folded with differently initialised parameters) are a bounded stand-in"),
+    "C18": mixed("contract obligations from ARBITRARY registry states (the two dicts of the BiMap are symbolic maps, so the representation invariant is "
+                 "preserved over every history by induction): add / lookups / compile memoisation / round trip; PipelineContext operators (refuse unknown "
+                 "compiled circuits, apply the symbolic operator with the context's own registry, compile the result); compile_pipeline on three operand-DAG "
+                 "shapes x three pre-states; context enter/exit with the ContextVar contract for nesting depths 1..3 with and without exceptions, sequential "
+                 "re-use, distinct registry per context; random longer histories and topological ordering of arbitrary DAGs by the bounded stand-in"),
+    "C19": ("other", "contract obligations (syntactic frame): no evaluation method writes object state, learnable storage is allocated at exactly one "
+            "site (TorchTensorParameter._ptensor); the decisive step (nn.Module state_dict / load_state_dict) is an assumed contract of a dependency, so "
+            "no proof is claimed; BOUNDED STAND-IN: save -> fresh re-initialised (and already evaluated, incl. frozen random tensors) compile -> "
+            "load_state_dict(strict) -> equal outputs for base and derived circuits under the four flag settings",
+            PROOF_NOTE + " || " + BOUNDED_NOTE + "; torch.save/torch.load and nn.Module.state_dict/load_state_dict are trusted",
+            "syntactic frame obligations on the real source + bounded native round-trip check", "4/C19"),
     "C20": bounded("tensor-factorisation templates against explicit numpy contractions of their factor tensors (tensor-train: reference interpreter + "
                    "TT-rank of every unfolding), PGM templates against per-variable tables and per-variable arguments, logic circuits (ordered "
                    "decision formulas) against truth tables and model counts"),
-    "C07": bounded("compiled conjugate(c) against the conjugate of the reference value (complex and real circuits)"),
 })
 
 NOT_APPLICABLE = [
